@@ -251,7 +251,78 @@ def run(res, tier, only_case=None):
     # ---- END block
     # ------------------------------------------------------------------ tools
     tool_part(res, tier, rng, wd)
+    download_model_part(res, tier, vlib.Rng(vlib.seed() + 12), wd)
     vlib.shutil.rmtree(wd, ignore_errors=True)
+
+
+def download_model_part(res, tier, rng, wd):
+    """Io/DlFaults.v against the real callbacks: the C05 case format with opts fault=<op>.<k>.<kind>.<n>; the extracted
+    model follows the write/lseek schedule 'k-1 good calls, then the fault', the harness (zh_c12dl = zh_c05 built with the
+    wrappers) makes the k-th write(2)/lseek(2) on the target fail or transfer <n> bytes while the callbacks run"""
+    from props import c05
+    import hashlib as _h
+    srch = _h.sha256(open(os.path.join(vlib.VERIF, "harness", "zh_c05.c"), "rb").read()).hexdigest()[:12]
+    impl = vlib.ensure_harness("zh_c12dl", "asan", extra=WRAP + ("-DZH_SRC_KEY=0x%s" % srch,))
+    model = vlib.ensure_model("C05")
+    base = []
+    tables = [[(9, 0, 1201), (14, 0, 1202), (6, 0, 1203)],
+              [(7, 0, 1211), (9, 1, 1212), (40000 if tier == "thorough" else 6, 0, 1213), (11, 0, 1214)],
+              [(5, 1, 1221), (12, 0, 1222), (8, 0, 1223), (4, 1, 1224), (10, 0, 1225)]]
+    for ti, chunks in enumerate(tables):
+        ridx, _ = c05.auto_ridx(chunks, 40)
+        for mode in ("plain", "mp"):
+            if mode == "plain" and len(c05.runs_of(ridx, chunks)) != 1:
+                continue
+            for corrupt in [None] + [(k, 0) for k in range(len(ridx))]:
+                hdrs, body = c05.response(chunks, ridx, 40, mode, corrupt=corrupt)
+                for parts in ("w", "k5"):
+                    base.append((("dlf:%d:%s:%s:%s" % (ti, mode, "ok" if corrupt is None else "bad%d" % corrupt[0], parts)),
+                                 chunks, ridx, hdrs, body, parts))
+    faults = [None] + ["write.%d.%s" % (k, kk) for k in range(1, 9 if tier == "quick" else 14)
+                       for kk in ("eio.1", "short.1", "short.0", "eintr.1", "enospc.1")] + \
+             ["lseek.%d.eio.1" % k for k in range(1, 6 if tier == "quick" else 9)]
+    cases = []
+    for nm, chunks, ridx, hdrs, body, parts in base:
+        fl = faults if tier == "thorough" else [None] + rng.sample(faults[1:], 14)
+        for f in fl:
+            c = c05.Case(nm + ":" + (f or "nofault"), chunks, ridx, body, parts, hdrs=hdrs, opts=["auto"] + (["fault=" + f] if f else []),
+                         kind="dlfault")
+            c.base = nm
+            c.fault = f
+            cases.append(c)
+    lines = [c.line() for c in cases]
+    mo, _ = c05.run_exe(model, lines, wd, "dlf-model")
+    io, _ = c05.run_exe(impl, lines, wd, "dlf-impl")
+    clean = {}
+    for c, m, i in zip(cases, mo, io):
+        if c.fault is None:
+            clean[c.base] = c05.parse(i)
+    for c, m, i in zip(cases, mo, io):
+        res.evaluations += 1
+        res.count("dlfault")
+        info = {"line": c.line(), "name": c.name, "impl": i[:500], "model": m[:500]}
+        p = c05.parse(i)
+        if p is None:
+            res.violation("oracle", "c12:dlf-fault:" + c.name, "download callbacks die under fault %s: %r" % (c.fault, i[:200]), info)
+            continue
+        good = clean.get(c.base)
+        if c.fault:
+            res.nontrivial.add("c12:" + c.name)
+        # success under a fault = the fault-free result
+        if good and p["verdict"] and (p["L"], p["F"], p["V"]) != (good["L"], good["F"], good["V"]):
+            res.violation("oracle", "c12:dlf-success:" + c.name, "every callback reported success under fault %s but file/flags differ "
+                          "from the fault-free run (%s)" % (c.fault, c.name), info)
+        # a chunk flagged valid holds its bytes; nothing outside the requested extents changed; no growth beyond them
+        if p["L"] > c.max_len() or p["M"] != c.masked_expect(p["L"]):
+            res.violation("oracle", "c12:dlf-confine:" + c.name, "bytes outside the requested chunks changed under fault %s (%s)" % (c.fault, c.name), info)
+        for k, item in enumerate(p["V"].split(",") if p["V"] else []):
+            if item[:-1] == "1" and item[-1] not in ("T", "E"):
+                res.violation("oracle", "c12:dlf-valid:" + c.name, "chunk %d flagged valid without its bytes under fault %s (%s)" % (k, c.fault, c.name), info)
+        mres = vlib.split_model(m)[0]
+        if mres != i:
+            res.violation("correspondence", "c12-corr:dlf:" + c.name, "Io/DlFaults.v and the callbacks disagree under fault %s on %s: model %r, code %r"
+                          % (c.fault, c.name, mres[:250], i[:250]), info)
+    res.extra["download_model_cases"] = len(cases)
 
 
 def tool_part(res, tier, rng, wd):
